@@ -1,13 +1,291 @@
-(** C16 - first version: regenerated-value facts only (extended below). *)
-From Coq Require Import ZArith List Bool String.
-From Cij Require Import JsonModel SchemaModel.
+(** C16 - effective configuration = user settings over packaged defaults; invalid rejected.
+
+    Part A (merge): statements about the hand-transcribed model [update_config] (JsonModel.v),
+    proved in Json.v by structural induction, for EVERY enumeration order of the key set.
+    Part B (validation): re-proved on every run against Gen_schema.v / Gen_defaults.v, which are
+    regenerated from cij/data/schema/config.schema.json, cij/data/default/settings.yaml and
+    examples/*/settings.yaml. *)
+From Coq Require Import ZArith List Bool String Permutation.
+From Cij Require Import JsonModel SchemaModel Json Schema.
 From CijGen Require Import Gen_schema Gen_defaults.
 Import ListNotations.
 Local Open Scope string_scope.
 
+(* ------------------------------------------------------------------------------------------ *)
+(** * Part A: the merge *)
+
+(** [key_order ord]: ord enumerates each key of the list once, in any order (Python set iteration). *)
+
+(** A1. merge_spec.  Whenever the merge returns (equivalently: no user dict meets a non-dict default),
+    the leaves of the result are exactly the user's leaves, at every depth, plus the default leaves
+    the user says nothing about; ... *)
+Theorem merge_spec_leaves : forall ord, key_order ord -> forall u d r, update_config ord u d = Some r ->
+  forall p v, leaf_at r p v <-> leaf_at u p v \/ (leaf_at d p v /\ unspecified u p).
+Proof. intros ord H u d r Hu p v. exact (merge_leaves_l ord H p u d r v Hu). Qed.
+Print Assumptions merge_spec_leaves.
+
+(** ... the key set is the union of the key sets at every path where both inputs hold a dict, ... *)
+Theorem merge_spec_keys : forall ord, key_order ord -> forall u d r, update_config ord u d = Some r ->
+  forall p us ds, get_path p u = Some (JObj us) -> get_path p d = Some (JObj ds) ->
+  exists rs, get_path p r = Some (JObj rs) /\ forall k, In k (keys rs) <-> In k (keys us) \/ In k (keys ds).
+Proof. intros ord H u d r Hu p us ds. exact (merge_keys_l ord H p u d r us ds Hu). Qed.
+Print Assumptions merge_spec_keys.
+
+(** ... and no key path of the result is absent from both inputs. *)
+Theorem merge_spec_no_other_keys : forall ord, key_order ord -> forall u d r, update_config ord u d = Some r ->
+  forall p x, get_path p r = Some x -> get_path p u <> None \/ get_path p d <> None.
+Proof. intros ord H u d r Hu p x. exact (merge_no_other_keys_l ord H p u d r x Hu). Qed.
+Print Assumptions merge_spec_no_other_keys.
+
+(** A2. The merge returns exactly on the clash-free pairs (executable predicate [no_clash]). *)
+Theorem merge_defined_iff : forall ord, key_order ord -> forall u d, wf u = true ->
+  (no_clash u d = true <-> exists r, update_config ord u d = Some r).
+Proof.
+  intros ord H u d Hw. split.
+  - exact (merge_defined_l ord H u d).
+  - intros [r Hr]. exact (merge_defined_only_if_l ord H u d r Hw Hr).
+Qed.
+Print Assumptions merge_defined_iff.
+
+(** A3. Idempotence, and the two identities ([jeq]: equality of trees with dicts as finite maps). *)
+Theorem merge_idempotent : forall ord, key_order ord -> forall u d r, update_config ord u d = Some r ->
+  exists r', update_config ord r d = Some r' /\ jeq r' r.
+Proof. intros ord H. exact (merge_idempotent_l ord H). Qed.
+Print Assumptions merge_idempotent.
+Theorem merge_empty_default : forall ord, key_order ord -> forall us,
+  exists r, update_config ord (JObj us) (JObj []) = Some r /\ jeq r (JObj us).
+Proof. intros ord H. exact (merge_empty_default_l ord H). Qed.
+Print Assumptions merge_empty_default.
+Theorem merge_empty_user : forall ord, key_order ord -> forall ds,
+  exists r, update_config ord (JObj []) (JObj ds) = Some r /\ jeq r (JObj ds).
+Proof. intros ord H. exact (merge_empty_user_l ord H). Qed.
+Print Assumptions merge_empty_user.
+
+(** A4. The result does not depend on the enumeration order of the key set (hash seed). *)
+Theorem merge_order_independent : forall ord ord', key_order ord -> key_order ord' ->
+  forall u d, orel jeq (update_config ord u d) (update_config ord' u d).
+Proof. intros ord ord' H H'. exact (merge_order_independent_l ord H ord' H'). Qed.
+Print Assumptions merge_order_independent.
+Example key_orders_exist : key_order dedup /\ key_order (fun l => rev (dedup l)).
+Proof. split; [exact key_order_dedup | exact key_order_rev]. Qed.
+
+(** A5. merge_total is REFUTED: on well-formed nested dictionaries the merge is not total
+    ({a:{b:1}} over {a:2}: AttributeError in Python) - defect D11 of the pinned tree. *)
+Theorem merge_total_refuted :
+  exists u d, wf u = true /\ wf d = true /\ is_obj u = true /\ is_obj d = true /\
+              forall ord, key_order ord -> update_config ord u d = None.
+Proof. exact merge_total_refuted_l. Qed.
+Print Assumptions merge_total_refuted.
+(** ... and with the packaged defaults a configuration that VALIDATES is enough to hit it. *)
+Definition d11_valid_config : json :=
+  JObj [("qha", JObj []); ("elast", JObj []); ("output", JObj [("pressure_base", JObj [("cij", JBool true)])])].
+Theorem apply_default_total_refuted :
+  exists u, wf u = true /\ validate definitions root u = true /\ apply_default_config default_settings u = None.
+Proof. exists d11_valid_config. vm_compute. repeat split. Qed.
+Print Assumptions apply_default_total_refuted.
+
+(** non-vacuity of A1-A3: a clash-free nested pair, and the packaged files themselves *)
+Example merge_hypotheses_satisfiable :
+  no_clash ex_user ex_default = true /\
+  forallb (fun e => no_clash (snd e) default_settings && wf (snd e)) examples = true.
+Proof. vm_compute. split; reflexivity. Qed.
+
+(* ------------------------------------------------------------------------------------------ *)
+(** * Part B: validation against the regenerated schema *)
+
 Theorem schema_wellformed : schema_wf definitions root = true.
 Proof. vm_compute. reflexivity. Qed.
 Print Assumptions schema_wellformed.
+
+Definition resolve : string -> json -> bool :=
+  fun n j => match lookup n definitions with Some t => validate0 t j | None => false end.
+
+Ltac unfold_preds :=
+  unfold is_string, is_boolean, is_object, is_number, number_ge, integer_ge, one_of, never,
+         interpolators, systems.
+(** leaf schema (type / enum / minimum only)  =  leaf predicate *)
+Ltac leaf :=
+  let x := fresh "x" in
+  intros x; first
+    [ reflexivity
+    | rewrite validate_SObj, addl_true, props_nil; unfold_preds; destruct x; cbn;
+      rewrite ?andb_true_r, ?orb_false_r; reflexivity ].
+(** [Forall2] side condition of [props_fields] for concrete lists; [tac] proves the non-leaf entries *)
+Ltac field_list tac :=
+  repeat (constructor; [cbn [fst snd]; split; [reflexivity | first [leaf | tac]] | ]); constructor.
+(** rewrite the `properties` part of the goal into the [fields] list found on the other side *)
+Ltac use_fields r tac :=
+  match goal with
+  | |- context [fields ?specs ?l] => rewrite (props_fields r _ specs); [| field_list tac]
+  end.
+Ltac norm_obj :=
+  cbn [type_ok existsb has_type required_ok forallb enum_ok minimum_ok ref_ok orb andb keys map fst];
+  rewrite ?andb_true_r; try reflexivity.
+
+Section WithResolver.
+  Variable r : string -> json -> bool.
+
+  Lemma mode_gamma_ok : forall t,
+    lookup "elast_settings" definitions = Some t ->
+    match t with
+    | SObj _ _ props _ _ _ _ =>
+        match lookup "mode_gamma" props with
+        | Some s => forall x, validate_gen r s x = ModeGamma x
+        | None => False
+        end
+    | _ => False
+    end.
+  Proof.
+    intros t Ht. vm_compute in Ht. injection Ht as <-. cbn [lookup String.eqb Ascii.eqb Bool.eqb].
+    intros x. rewrite validate_SObj, addl_true. destruct x; try reflexivity.
+    unfold ModeGamma, object_with. use_fields r fail. norm_obj.
+  Qed.
+  Lemma symmetry_ok : forall t,
+    lookup "elast_settings" definitions = Some t ->
+    match t with
+    | SObj _ _ props _ _ _ _ =>
+        match lookup "symmetry" props with
+        | Some s => forall x, validate_gen r s x = Symmetry x
+        | None => False
+        end
+    | _ => False
+    end.
+  Proof.
+    intros t Ht. vm_compute in Ht. injection Ht as <-. cbn [lookup String.eqb Ascii.eqb Bool.eqb].
+    intros x. rewrite validate_SObj. destruct x; try reflexivity.
+    rewrite addl_false. unfold Symmetry, object_with. use_fields r fail. norm_obj.
+  Qed.
+End WithResolver.
+
+Lemma elast_settings_ok : forall t, lookup "elast_settings" definitions = Some t ->
+  forall x, validate0 t x = ElastSettings x.
+Proof.
+  intros t Ht. pose proof (mode_gamma_ok (fun _ _ => false) t Ht) as MG.
+  pose proof (symmetry_ok (fun _ _ => false) t Ht) as SY.
+  vm_compute in Ht. injection Ht as <-. cbn [lookup String.eqb Ascii.eqb Bool.eqb] in MG, SY.
+  intros x. unfold validate0. rewrite validate_SObj. destruct x; try reflexivity.
+  rewrite addl_false. unfold ElastSettings, object_with.
+  use_fields (fun (_ : string) (_ : json) => false) ltac:(first [exact MG | exact SY]). norm_obj.
+Qed.
+Lemma qha_settings_ok : forall t, lookup "qha_settings" definitions = Some t ->
+  forall x, validate0 t x = QhaSettings x.
+Proof.
+  intros t Ht. vm_compute in Ht. injection Ht as <-.
+  intros x. unfold validate0. rewrite validate_SObj, addl_true. destruct x; try reflexivity.
+  unfold QhaSettings, object_with. use_fields (fun (_ : string) (_ : json) => false) fail. norm_obj.
+Qed.
+
+(** B1. validate_characterisation: on ALL trees, the regenerated schema accepts exactly [Spec]. *)
+Theorem validate_characterisation : forall cfg, validate definitions root cfg = Spec cfg.
+Proof.
+  intros cfg. unfold validate. fold resolve. unfold root.
+  assert (RQ : forall x, resolve "qha_settings" x = QhaSettings x).
+  { intros x. unfold resolve. destruct (lookup "qha_settings" definitions) as [t|] eqn:E;
+      [exact (qha_settings_ok t E x) | vm_compute in E; discriminate E]. }
+  assert (RE : forall x, resolve "elast_settings" x = ElastSettings x).
+  { intros x. unfold resolve. destruct (lookup "elast_settings" definitions) as [t|] eqn:E;
+      [exact (elast_settings_ok t E x) | vm_compute in E; discriminate E]. }
+  assert (SQ : forall x, validate_gen resolve
+                 (SObj (Some [TObject]) [] [] None None (SBool true) (Some "qha_settings")) x = QhaSettings x).
+  { intros x. rewrite validate_SObj, addl_true, props_nil. unfold ref_ok. rewrite RQ.
+    destruct x; reflexivity. }
+  assert (SE : forall x, validate_gen resolve
+                 (SObj (Some [TObject]) [] [] None None (SBool true) (Some "elast_settings")) x = ElastSettings x).
+  { intros x. rewrite validate_SObj, addl_true, props_nil. unfold ref_ok. rewrite RE.
+    destruct x; reflexivity. }
+  assert (section : forall s specs,
+             (forall l, props_ok resolve s (JObj l) = fields specs l) ->
+             forall x, validate_gen resolve (SObj (Some [TObject]) [] s None None (SBool true) None) x
+                       = object_with (fields specs) x).
+  { intros s specs H x. rewrite validate_SObj, addl_true. destruct x; try reflexivity.
+    rewrite H. unfold object_with. norm_obj. }
+  rewrite validate_SObj, addl_true. destruct cfg; try reflexivity.
+  unfold Spec, object_with, has.
+  use_fields resolve ltac:(apply section; intros l'; apply props_fields;
+                           field_list ltac:(first [exact SQ | exact SE])).
+  norm_obj.
+Qed.
+Print Assumptions validate_characterisation.
+Example spec_satisfiable : Spec default_settings = true.
+Proof. vm_compute. reflexivity. Qed.
+
+(** B2. every rejection named in the property, for ALL configurations having the defect *)
+Theorem missing_section_rejected : forall l k, k = "qha" \/ k = "elast" -> lookup k l = None ->
+  validate definitions root (JObj l) = false.
+Proof. intros l k Hk Hl. rewrite validate_characterisation. exact (Spec_rejects_missing_section l k Hk Hl). Qed.
+Print Assumptions missing_section_rejected.
+Theorem non_dict_rejected : forall cfg, is_obj cfg = false -> validate definitions root cfg = false.
+Proof. intros cfg H. rewrite validate_characterisation. destruct cfg; try reflexivity. discriminate. Qed.
+Print Assumptions non_dict_rejected.
+(** [constraints] (Schema.v) lists, per documented key path, the predicate its value must satisfy:
+    is_number / number_ge min / integer_ge min for the numeric settings, one_of for interpolator and
+    system, is_boolean, is_string, is_object.  A value violating it - wrong type (a bool is not a
+    number), non-integral for an integer field, below the minimum, not in the enumeration - is rejected. *)
+Theorem bad_value_rejected : forall cfg path pred v,
+  In (path, pred) constraints -> get_path path cfg = Some v -> pred v = false ->
+  validate definitions root cfg = false.
+Proof. intros cfg path pred v H1 H2 H3. rewrite validate_characterisation. exact (Spec_rejects_bad_value cfg path pred v H1 H2 H3). Qed.
+Print Assumptions bad_value_rejected.
+Theorem unknown_key_in_elast_settings_rejected : forall cfg l k,
+  get_path ["elast"; "settings"] cfg = Some (JObj l) -> In k (keys l) ->
+  ~ In k ["mode_gamma"; "symmetry"] -> validate definitions root cfg = false.
+Proof. intros cfg l k H1 H2 H3. rewrite validate_characterisation. exact (Spec_rejects_unknown_key_elast cfg l k H1 H2 H3). Qed.
+Print Assumptions unknown_key_in_elast_settings_rejected.
+Theorem unknown_key_in_symmetry_rejected : forall cfg l k,
+  get_path ["elast"; "settings"; "symmetry"] cfg = Some (JObj l) -> In k (keys l) ->
+  ~ In k symmetry_keys -> validate definitions root cfg = false.
+Proof. intros cfg l k H1 H2 H3. rewrite validate_characterisation. exact (Spec_rejects_unknown_key_symmetry cfg l k H1 H2 H3). Qed.
+Print Assumptions unknown_key_in_symmetry_rejected.
+(** instances spelled out: T_MIN below 0, a bool for DT, an unknown crystal system *)
+Example t_min_negative_rejected : forall cfg z, (z < 0)%Z ->
+  get_path ["qha"; "settings"; "T_MIN"] cfg = Some (JNum (NInt z)) -> validate definitions root cfg = false.
+Proof.
+  intros cfg z Hz Hp. apply (bad_value_rejected cfg _ (number_ge (NInt 0)) _ ltac:(cbn; tauto) Hp).
+  apply below_minimum_rejected, int_below_minimum, Hz.
+Qed.
+Example bool_for_number_rejected : forall cfg b,
+  get_path ["qha"; "settings"; "DT"] cfg = Some (JBool b) -> validate definitions root cfg = false.
+Proof. intros cfg b Hp. apply (bad_value_rejected cfg _ is_number _ ltac:(cbn; tauto) Hp). reflexivity. Qed.
+Example unknown_system_rejected : forall cfg s, ~ In s systems ->
+  get_path ["elast"; "settings"; "symmetry"; "system"] cfg = Some (JStr s) -> validate definitions root cfg = false.
+Proof.
+  intros cfg s Hs Hp. apply (bad_value_rejected cfg _ (one_of systems) _ ltac:(cbn; tauto) Hp).
+  apply unknown_enum_rejected, Hs.
+Qed.
+
+(** B2'. documented values are accepted: every documented interpolator x crystal system, with every
+    numeric setting AT its documented minimum (integers also spelled as integral floats) *)
+Definition full_cfg (as_float : bool) (interp system : string) : json :=
+  let n (z : Z) := JNum (if as_float then NFlt z 0 else NInt z) in
+  JObj [("qha", JObj [("input", JStr "input01");
+                      ("settings", JObj [("NT", n 1%Z); ("DT", n 100%Z); ("T_MIN", n 0%Z); ("NTV", n 1%Z);
+                                         ("P_MIN", n (-5)%Z); ("DELTA_P", JNum (NFlt 1 (-1))); ("DELTA_P_SAMPLE", n 1%Z);
+                                         ("volume_ratio", n 1%Z); ("order", n 2%Z)])]);
+        ("elast", JObj [("input", JStr "elast.dat");
+                        ("settings", JObj [("mode_gamma", JObj [("interpolator", JStr interp); ("order", n 1%Z)]);
+                                           ("symmetry", JObj [("system", JStr system); ("ignore_residuals", JBool false);
+                                                              ("ignore_rank", JBool true);
+                                                              ("drop_atol", JNum (NFlt 3022314549036573 (-78)));
+                                                              ("residual_atol", n 0%Z)])])]);
+        ("output", JObj [("pressure_base", JArr [JStr "cij"])])].
+Theorem documented_values_accepted : forall f i s, In i interpolators -> In s systems ->
+  validate definitions root (full_cfg f i s) = true.
+Proof.
+  assert (H : forallb (fun f => forallb (fun i => forallb (fun s => validate definitions root (full_cfg f i s))
+                                                    systems) interpolators) [true; false] = true)
+    by (vm_compute; reflexivity).
+  intros f i s Hi Hs. rewrite forallb_forall in H.
+  assert (Hf : In f [true; false]) by (destruct f; cbn; tauto).
+  specialize (H f Hf). rewrite forallb_forall in H. specialize (H i Hi). rewrite forallb_forall in H. exact (H s Hs).
+Qed.
+Print Assumptions documented_values_accepted.
+
+(** the boolean tree comparison used by the correspondence shards implies extensional equality *)
+Theorem tie_comparison_sound : forall a b, jeqb a b = true -> jeq a b.
+Proof. exact jeqb_sound. Qed.
+Print Assumptions tie_comparison_sound.
+
+(** B3. the shipped files validate (vm_compute on the regenerated values) *)
 Theorem defaults_valid : validate definitions root default_settings = true.
 Proof. vm_compute. reflexivity. Qed.
 Print Assumptions defaults_valid.
@@ -17,3 +295,17 @@ Proof.
   intros n e Hin. rewrite forallb_forall in H. exact (H (n, e) Hin).
 Qed.
 Print Assumptions examples_valid.
+Example examples_nonempty : examples <> [].
+Proof. discriminate. Qed.
+(** and the effective configuration of every shipped example exists and validates again *)
+Theorem examples_effective_valid : forall n e, In (n, e) examples ->
+  exists r, apply_default_config default_settings e = Some r /\ validate definitions root r = true.
+Proof.
+  assert (H : forallb (fun p => match apply_default_config default_settings (snd p) with
+                                | Some r => validate definitions root r
+                                | None => false
+                                end) examples = true) by (vm_compute; reflexivity).
+  intros n e Hin. rewrite forallb_forall in H. specialize (H (n, e) Hin). cbn [snd] in H.
+  destruct (apply_default_config default_settings e) as [r|]; [|discriminate]. exists r. auto.
+Qed.
+Print Assumptions examples_effective_valid.
